@@ -1,5 +1,6 @@
 pub mod c01;
 pub mod c02;
+pub mod c03;
 pub mod c05;
 pub mod c07;
 pub mod c11;
@@ -8,12 +9,13 @@ pub mod c12;
 use crate::framework::Ctx;
 use serde_json::Value as J;
 
-pub const ALL: &[&str] = &["C01", "C02", "C05", "C07", "C11", "C12"];
+pub const ALL: &[&str] = &["C01", "C02", "C03", "C05", "C07", "C11", "C12"];
 
 pub fn run(ctx: &mut Ctx) {
 	match ctx.prop {
 		"C01" => c01::run(ctx),
 		"C02" => c02::run(ctx),
+		"C03" => c03::run(ctx),
 		"C05" => c05::run(ctx),
 		"C07" => c07::run(ctx),
 		"C11" => c11::run(ctx),
@@ -26,6 +28,7 @@ pub fn replay(prop: &str, family: &str, case: &J) -> Result<(), String> {
 	match prop {
 		"C01" => c01::replay(family, case),
 		"C02" => c02::replay(family, case),
+		"C03" => c03::replay(family, case),
 		"C05" => c05::replay(family, case),
 		"C07" => c07::replay(family, case),
 		"C11" => c11::replay(family, case),
@@ -39,6 +42,9 @@ pub fn intern(prop: &str) -> Option<&'static str> {
 }
 
 /// `jsv child ...`: sub-process entry used by C03 (deep nesting in a small stack).
-pub fn child_main(_args: &[String]) -> i32 {
-	2
+pub fn child_main(args: &[String]) -> i32 {
+	match args.first().map(|s| s.as_str()) {
+		Some("deep") => c03::child_deep(&args[1..]),
+		_ => 2,
+	}
 }
